@@ -23,6 +23,7 @@ import (
 	"runtime"
 	"sort"
 	"strings"
+	"sync"
 	"sync/atomic"
 	"time"
 
@@ -154,6 +155,31 @@ func c11Restore(be backend.Backend, snap string, srcDir string, want map[string]
 	return c11Verify(filepath.Join(tgt, srcDir), want)
 }
 
+// c11LostBackend: the at-th Save takes effect and then reports an error ("lost response"), once.
+// It sits directly on the real backend, below the recorder and below restic's retry layer.
+type c11LostBackend struct {
+	backend.Backend
+	mu    sync.Mutex
+	at    int
+	saves int
+}
+
+func (b *c11LostBackend) Save(ctx context.Context, h backend.Handle, rd backend.RewindReader) error {
+	err := b.Backend.Save(ctx, h, rd)
+	if err != nil {
+		return err
+	}
+	b.mu.Lock()
+	defer b.mu.Unlock()
+	b.saves++
+	if b.saves == b.at+1 {
+		return errInjected
+	}
+	return nil
+}
+
+func (b *c11LostBackend) Unwrap() backend.Backend { return b.Backend }
+
 type c11Run struct {
 	mode string // crash | fail | cancel | complete
 	at   int
@@ -218,7 +244,11 @@ func c11Scenario(h *H, root string, ti int) {
 
 	exec := func(r c11Run) (*RecBackend, CmdResult, *mem.MemoryBackend) {
 		be := LoadBackend(base)
-		rec := NewRecBackend(be)
+		var inner backend.Backend = be
+		if r.mode == "lostreply" {
+			inner = &c11LostBackend{Backend: be, at: r.at}
+		}
+		rec := NewRecBackend(inner)
 		rec.KeepData = true
 		cli := NewCLI(rec)
 		cli.Extra = cliExtra
@@ -300,6 +330,16 @@ func c11Scenario(h *H, root string, ti int) {
 	}
 	for j := h.Intn(step); j < n; j += step {
 		runs = append(runs, c11Run{"cancel", j})
+	}
+	// a Save that takes effect and then reports an error, once, for every saved file of the run
+	nSaves := 0
+	for _, e := range rec0.Events {
+		if e.Op == "save" && !e.Err {
+			nSaves++
+		}
+	}
+	for j := 0; n > 0 && j < nSaves; j++ {
+		runs = append(runs, c11Run{"lostreply", j})
 	}
 	nLoads := 0
 	for _, e := range rec0.Events {
